@@ -1,10 +1,10 @@
 import AvroModel.Codec
 /-!
 Model of the container reader of philpearl/avro: `file.go` — `ReadFile` (l.107), `readFileHeader`
-(l.216), `readBytes` (l.262), `FileHeader.schema` (l.275), `nullCompression` / `deflate` /
-`snappyCodec` `decompress` (l.295, l.310, l.345) — as the code is *now* (after the repairs: a
+(l.212), `readBytes` (l.258), `readN` (l.273), `FileHeader.schema` (l.296), `nullCompression` /
+`deflate` / `snappyCodec` `decompress` (l.316, l.331, l.366) — as the code is *now* (after the repairs: a
 header without `avro.codec` is read as uncompressed, inflate errors are returned, snappy blocks
-shorter than four bytes and negative lengths are rejected).
+shorter than four bytes and negative lengths are rejected, nothing is allocated from a declared length).
 
 The byte source is the list of unread bytes behind the `Reader` (`io.Reader` + `io.ByteReader`,
 in practice a `bufio.Reader`). `encoding/binary.ReadVarint` and `io.ReadFull` are modelled from
@@ -12,7 +12,7 @@ their sources (they differ from the library's own `ReadBuf.uvarint`: see `ioUvar
 
 External code is a parameter (`Ext`): compress/flate's inflater, `snappy.Decode`, `crc32.ChecksumIEEE`,
 and JSON schema parsing + `Schema.Codec` (`build`, which yields the record decoder). The record
-decoder stands for `typedmemclr(rtyp, p); codec.Read(br, p)` (file.go:195-196): it decodes one
+decoder stands for `typedmemclr(rtyp, p); codec.Read(br, p)` (file.go:191-192): it decodes one
 record into a zeroed destination and returns the unread rest of the block buffer. The caller's
 callback is a function of the global record index: `cb i = some e` means the callback returns the
 error `e` when it is handed record number `i` (0-based over the whole file).
@@ -60,33 +60,31 @@ def readFull (n : Nat) (bs : Bytes) : Except IoErr (Bytes × Bytes) :=
 
 /-- Which `return …err…` statement of file.go produced the error. -/
 inductive ErrKind where
-  | magicRead       -- l.220 "failed to read file magic"
-  | magic           -- l.223 "file header Magic is not correct"
-  | metaCount       -- l.231 "failed to read count of map block"
-  | metaNegCount    -- l.237 "negative block size not supported in file header"
-  | metaKey         -- l.243 "failed to read key for map" (incl. l.268 negative length)
-  | metaVal         -- l.248 "failed to read value for map"
-  | headerSync      -- l.256 "failed to read file sync"
+  | magicRead       -- l.216 "failed to read file magic"
+  | magic           -- l.219 "file header Magic is not correct"
+  | metaCount       -- l.227 "failed to read count of map block"
+  | metaNegCount    -- l.233 "negative block size not supported in file header"
+  | metaKey         -- l.239 "failed to read key for map" (incl. l.264 negative length)
+  | metaVal         -- l.244 "failed to read value for map"
+  | headerSync      -- l.252 "failed to read file sync"
   | unknownCodec    -- l.124 "compression codec %s not supported"
-  | noSchema        -- l.278 "no schema found in file header"
-  | badSchema       -- l.282 schema JSON does not parse / l.135 "failed to build codec"
+  | noSchema        -- l.299 "no schema found in file header"
+  | badSchema       -- l.303 schema JSON does not parse / l.135 "failed to build codec"
   | count           -- l.168 "reading item count"
   | length          -- l.172 "reading data block length"
   | negLength       -- l.175 "negative data block length"
-  | payload         -- l.183 "reading %d bytes of compressed data"
-  | inflate         -- l.319 "inflating block" (under l.187 "decompress failed")
-  | snappyShort     -- l.347 "snappy block too short to hold a checksum"
-  | snappyDecode    -- l.352 "snappy decode failed"
-  | crc             -- l.357 "snappy checksum mismatch"
-  | record          -- l.197 "failed to read item %d in file"
-  | syncRead        -- l.208 "failed reading block signature"
-  | syncMismatch    -- l.211 "sync block does not match"
+  | payload         -- l.179 "reading %d bytes of compressed data"
+  | inflate         -- l.340 "inflating block" (under l.183 "decompress failed")
+  | snappyShort     -- l.368 "snappy block too short to hold a checksum"
+  | snappyDecode    -- l.373 "snappy decode failed"
+  | crc             -- l.378 "snappy checksum mismatch"
+  | record          -- l.193 "failed to read item %d in file"
+  | syncRead        -- l.204 "failed reading block signature"
+  | syncMismatch    -- l.207 "sync block does not match"
   deriving DecidableEq, Repr
 
 /-- Go run-time panics that the statements of file.go could raise. -/
 inductive PanicKind where
-  | negMake         -- make([]byte, n) with n < 0
-  | hugeMake        -- make([]byte, n) with n > maxAlloc: "makeslice: len out of range"
   | sliceBounds     -- compressed[:len(compressed)-4] with len < 4
   | codecPanic      -- the record codec panicked
   | codecStuck      -- the record codec stored through a pointer of the wrong shape
@@ -113,7 +111,7 @@ instance : Monad Step where
   bind := Step.bind
 
 /-- What `ReadFile` returned: `nil`, an error built by file.go, the callback's own error value
-(returned as it is, file.go:201), a panic, or out of fuel (the model's loop bound was too small;
+(returned as it is, file.go:197), a panic, or out of fuel (the model's loop bound was too small;
 `fuel_enough` shows `length + 1` always suffices). -/
 inductive Res (ε : Type) where
   | ok
@@ -131,26 +129,39 @@ structure Out (α ε : Type) where
 
 /-! ### Header -/
 
-/-- `maxAlloc` of the Go runtime on 64-bit Linux (48 address bits): `make([]byte, n)` panics with
-"makeslice: len out of range" for `n` above it and tries to allocate otherwise. -/
-def maxAlloc : Nat := 2 ^ 48
+/-- chunk size of `readN` (file.go:274) -/
+def chunk : Nat := 2 ^ 20
 
-/-- `make([]byte, n)` for a declared length `n` (file.go:178, l.270). -/
-def makeBytes (n : Int) : Step Unit :=
-  if n < 0 then .panic .negMake
-  else if n.toNat > maxAlloc then .panic .hugeMake
-  else .ok ()
+/-- `readN(r, buf, n)` (file.go:273) for `n ≥ 0`: the bytes are read in chunks of at most 1 MiB with
+`io.ReadFull`, into a buffer that grows with what has arrived (no allocation from the declared
+length: each `make` is for at most `chunk` bytes, the re-slicing is guarded by the capacity test, so
+no statement of the loop can panic). The first chunk that cannot be filled ends the loop with that
+`ReadFull`'s error: `io.EOF` when the input ended exactly at a chunk boundary, `io.ErrUnexpectedEOF`
+otherwise — both are errors for every caller. The partial buffer returned with an error is only
+used for the error text. -/
+def readN (n : Nat) (bs : Bytes) : Except IoErr (Bytes × Bytes) :=
+  if n = 0 then .ok ([], bs)
+  else
+    match readFull (min n chunk) bs with
+    | .error e => .error e
+    | .ok (a, r) =>
+      match readN (n - min n chunk) r with
+      | .error e => .error e
+      | .ok (b, r') => .ok (a ++ b, r')
+termination_by n
+decreasing_by
+  have : 0 < chunk := by decide
+  omega
 
-/-- `readBytes` (file.go:262); `ek` is how the caller wraps the error. -/
+/-- `readBytes` (file.go:258); `ek` is how the caller wraps the error. -/
 def readBytes (ek : ErrKind) (bs : Bytes) : Step (Bytes × Bytes) :=
   match ioVarint bs with
   | .error _ => .err ek
   | .ok (l, r) =>
     if l < 0 then .err ek
-    else do
-      let _ ← makeBytes l
-      match readFull l.toNat r with
-      | .ok (v, r') => pure (v, r')
+    else
+      match readN l.toNat r with
+      | .ok (v, r') => .ok (v, r')
       | .error _ => .err ek
 
 /-- `fh.Meta`: the Go map as an association list, newest entry first (so a later key wins). -/
@@ -160,7 +171,7 @@ def metaGet : Meta → Bytes → Option Bytes
   | [], _ => none
   | (k', v) :: m, k => if k' = k then some v else metaGet m k
 
-/-- the `for ; count > 0; count--` loop of `readFileHeader` (file.go:240) -/
+/-- the `for ; count > 0; count--` loop of `readFileHeader` (file.go:236) -/
 def readEntries : Nat → Bytes → Meta → Step (Meta × Bytes)
   | 0, bs, m => .ok (m, bs)
   | n + 1, bs, m => do
@@ -168,7 +179,7 @@ def readEntries : Nat → Bytes → Meta → Step (Meta × Bytes)
     let (v, r2) ← readBytes .metaVal r1
     readEntries n r2 ((k, v) :: m)
 
-/-- the outer `for` loop over map blocks of `readFileHeader` (file.go:228) -/
+/-- the outer `for` loop over map blocks of `readFileHeader` (file.go:224) -/
 def readMeta : Nat → Bytes → Meta → Step (Meta × Bytes)
   | 0, _, _ => .fuel
   | fuel + 1, bs, m =>
@@ -189,7 +200,7 @@ structure Header where
 /-- `FileMagic` -/
 def magic : Bytes := [0x4F, 0x62, 0x6A, 0x01]
 
-/-- `readFileHeader` (file.go:216) -/
+/-- `readFileHeader` (file.go:212) -/
 def readFileHeader (fuel : Nat) (bs : Bytes) : Step (Header × Bytes) :=
   match readFull 4 bs with
   | .error _ => .err .magicRead
@@ -246,7 +257,7 @@ structure Ext (α : Type) where
 /-- `binary.BigEndian.Uint32` -/
 def beU32 (bs : Bytes) : Nat := bs.foldl (fun acc b => acc * 256 + b.toNat) 0
 
-/-- `decompress` of the three `compressionCodec`s (file.go:295, 310, 345). The slice expressions
+/-- `decompress` of the three `compressionCodec`s (file.go:316, 331, 366). The slice expressions
 `compressed[:len(compressed)-4]` / `compressed[len(compressed)-4:]` panic for `len < 4`; the guard
 before them makes that unreachable (`decompress_no_panic`). -/
 def decompress {α : Type} (X : Ext α) : CodecSel → Bytes → Step Bytes
@@ -268,7 +279,7 @@ def decompress {α : Type} (X : Ext α) : CodecSel → Bytes → Step Bytes
 section
 variable {α ε : Type}
 
-/-- The record loop `for i := int64(0); i < count; i++` (file.go:192-203). `idx` is the number of
+/-- The record loop `for i := int64(0); i < count; i++` (file.go:188-199). `idx` is the number of
 callbacks made before. Returns the records handed to the callback and, if the loop was left by a
 `return`, the result. A record is handed to the callback *before* its error is looked at, so the
 record on which the callback fails counts as delivered. -/
@@ -293,11 +304,9 @@ structure Cfg (α ε : Type) where
   sync : Bytes
   cb : Nat → Option ε
 
-/-- First half of one iteration of the block loop (file.go:163-184): the record count, the payload
-length, its guards, the payload. `ok none` is the clean end of the file (`io.EOF` from the count
-varint: `ReadFile` returns nil); `ok (some (count, compressed, rest))` otherwise. The buffer is
-allocated (or re-sliced) *before* the payload is read: `make` decides on the declared length alone;
-a declared length above `maxAlloc` always exceeds the capacity of the buffer, so `make` is reached. -/
+/-- First half of one iteration of the block loop (file.go:163-180): the record count, the payload
+length, its guard, the payload (`readN`). `ok none` is the clean end of the file (`io.EOF` from the
+count varint: `ReadFile` returns nil); `ok (some (count, compressed, rest))` otherwise. -/
 def blockHead (bs : Bytes) : Step (Option (Int × Bytes × Bytes)) :=
   match ioVarint bs with
   | .error .eof => .ok none
@@ -307,13 +316,12 @@ def blockHead (bs : Bytes) : Step (Option (Int × Bytes × Bytes)) :=
     | .error _ => .err .length
     | .ok (len, r2) =>
       if len < 0 then .err .negLength
-      else do
-        let _ ← makeBytes len
-        match readFull len.toNat r2 with
+      else
+        match readN len.toNat r2 with
         | .error _ => .err .payload
-        | .ok (comp, r3) => pure (some (count, comp, r3))
+        | .ok (comp, r3) => .ok (some (count, comp, r3))
 
-/-- Second half of one iteration (file.go:185-212): decompress, hand `count` records to the
+/-- Second half of one iteration (file.go:181-208): decompress, hand `count` records to the
 callback, then read and compare the sync marker; `next` is the rest of the loop. A negative `count`
 runs the record loop zero times (`count.toNat = 0`); what is left of the block buffer after `count`
 records is dropped by the next `br.Reset`; the sync marker is compared only after the block's
@@ -333,7 +341,7 @@ def blockTail (cfg : Cfg α ε) (next : Bytes → Nat → Out α ε) (count : In
         if sig ≠ cfg.sync then ⟨ds, .err .syncMismatch⟩
         else ⟨ds ++ (next r4 (idx + ds.length)).delivered, (next r4 (idx + ds.length)).res⟩
 
-/-- The block loop of `ReadFile` (file.go:162-213); `idx` is the number of callbacks made so far. -/
+/-- The block loop of `ReadFile` (file.go:162-209); `idx` is the number of callbacks made so far. -/
 def readBlocks (cfg : Cfg α ε) : Nat → Bytes → Nat → Out α ε
   | 0, _, _ => ⟨[], .fuel⟩
   | fuel + 1, bs, idx =>
